@@ -64,13 +64,17 @@ structure DState where
   cache : Cache := []
   /-- caches of proxies with a private-key-provider config: their cache keys end in the config's hash, so they
       form partitions of the one xDS cache that never meet the plain keys (or each other) -/
-  pcaches : List (String × Cache) := []
+  pcaches : PCaches := []
+  /-- label of the mesh-wide default private key provider ("" = none) -/
+  meshPkp : String := ""
   now : Nat := 0
   acs : List (Str × AuthCache) := []
   started : Bool := false
   grants : List RefGrant := []
   gws : List GwConfig := []
   aliases : List (Str × Str) := []
+  /-- the Gateway that streams see created / deleted while alive -/
+  gwOpt : List GwConfig := []
 
 def DState.upd (d : DState) (id : Str) (f : ClusterSpec → ClusterSpec) : DState :=
   if d.specs.any (fun c => c.id == id) then
@@ -90,14 +94,10 @@ def showValP (pkp : String) (name : Str) : Val → String
     else String.ofList name ++ " P:" ++ pkp ++ " " ++ String.ofList c ++ " " ++ String.ofList k
   | v => showVal name v
 
-def pcacheOf (d : List (String × Cache)) (pkp : String) : Cache :=
-  match d.find? (fun e => e.1 == pkp) with
-  | some e => e.2
-  | none => []
-
-def showAllKeys (plain : Cache) (ps : List (String × Cache)) : String :=
-  "keys=" ++ encSet (plain.map (fun e => String.ofList e.1) ++
-    ps.flatMap (fun pc => pc.2.map (fun e => String.ofList e.1 ++ "H-" ++ pc.1)))
+/-- All cache keys: the partition of the empty hash holds the plain keys, the others carry their provider label. -/
+def showAllKeys (ps : PCaches) : String :=
+  "keys=" ++ encSet (ps.flatMap (fun pc => pc.2.map (fun e =>
+    String.ofList e.1 ++ (if pc.1.isEmpty then "" else "H-" ++ String.ofList pc.1))))
 
 def showKeys (c : Cache) : String := "keys=" ++ encSet (c.map (fun e => String.ofList e.1))
 
@@ -115,6 +115,14 @@ def policy (d : DState) : DState :=
   if d.started then
     { d with now := d.now + 60, world := { d.world with clusters := d.specs.map ClusterSpec.toCluster } }
   else d
+
+/-- The proxy of a `stream` op as `SecretGen` sees it: alias-resolved cluster; for routers the verified references that
+    `mergeGateways` computes from the attached Gateways (with or without the optional one). -/
+def streamProxy (d : DState) (v : Option Identity) (cid : Str) (isRouter : Bool) (lbls : List (Str × Str))
+    (withOpt : Bool) : Proxy :=
+  let gws := (d.gws ++ (if withOpt then d.gwOpt else [])).filter (attached lbls)
+  { verified := v, cluster := resolveAlias d.aliases cid,
+    refs := if isRouter then some (verifiedRefs (grantEval d.grants) v gws) else none }
 
 /-- A policy op: before `start` it configures (creating the cluster spec if needed); afterwards it applies to
     configured clusters only. -/
@@ -177,28 +185,32 @@ def stepD (d : DState) (toks : List String) : DState × String :=
     ({ d with world := { configCluster := s2l cfg, clusters := d.specs.map ClusterSpec.toCluster,
                          remoteCreds := tokBool remote }, cache := [], started := true }, "ok")
   | ["clear"] => ({ d with cache := [], pcaches := [] }, "ok")
+  | ["sarmode", _, _] => (d, "ok")
+  | ["meshpkp", k] => ({ d with meshPkp := if k == "~" then "" else k }, "ok")
   | ["gen", hasVid, td, ns, sa, cl, refs, ptype, _claimed, names, req, uk, un, us] =>
     let p : Proxy := { verified := if tokBool hasVid then some ⟨s2l td, s2l ns, s2l sa⟩ else none,
                        cluster := s2l cl, refs := decIds refs }
     let rq : Option PushReq :=
       if req == "nil" then none else some ⟨tokBool req, zip3 (decList uk) (decList un) (decList us)⟩
-    let pkp := match ptype.splitOn "+" with
-      | [_, k] => k
-      | _ => ""
-    let cache := if pkp == "" then d.cache else pcacheOf d.pcaches pkp
-    let put := fun (c : Cache) (d : DState) =>
-      if pkp == "" then { d with cache := c }
-      else { d with pcaches := (pkp, c) :: d.pcaches.filter (fun e => e.1 != pkp) }
-    match generateT d.world { cache := cache, now := d.now, acs := d.acs } p (decL names) rq with
-    | (none, t) => ({ d with acs := t.acs }, "none " ++ showAllKeys d.cache d.pcaches)
-    | (some o, t) =>
-      let elems := o.res.map (fun e => showValP pkp e.1 e.2)
-      let d' := put o.cache { d with acs := t.acs }
-      (d', s!"cached:{o.cached}/{o.cached + o.regen} {encList (sortOnly elems)} {showAllKeys d'.cache d'.pcaches}")
+    -- the proxy's own ProxyConfig ("+none": sent without a provider), else the mesh default
+    let own : Option Str := match ptype.splitOn "+" with
+      | [_, "none"] => some []
+      | [_, k] => some k.toList
+      | _ => none
+    let pkp := effectivePkp d.meshPkp.toList own
+    match generateP d.world d.pcaches d.now d.acs pkp p (decL names) rq with
+    | (none, pcs, acs) => ({ d with pcaches := pcs, acs := acs }, "none " ++ showAllKeys d.pcaches)
+    | (some o, pcs, acs) =>
+      let elems := o.res.map (fun e => showValP (String.ofList pkp) e.1 e.2)
+      ({ d with pcaches := pcs, acs := acs },
+       s!"cached:{o.cached}/{o.cached + o.regen} {encList (sortOnly elems)} {showAllKeys pcs}")
   | ["sarerr", cl] => (policyOn d (s2l cl) (fun s => { s with sarErr := true }), "ok")
   -- stream stream: authenticate, initConnection (initProxyMetadata + authorize), one SDS request
+  | ["gwopt", ns, cred] =>
+    ({ d with gwOpt := [{ ns := s2l ns, saAnn := [], parentNsAnn := [], parentsAnn := [],
+                          servers := [⟨true, [], s2l cred, false, []⟩] }] }, "ok")
   | "stream" :: mode :: xa :: peer :: pt :: flag :: node :: ipok :: mns :: msa :: names :: cid :: labels :: names2 ::
-      push :: rs =>
+      push :: gwop :: rs =>
     match authenticate (tokBool xa) (decPeer peer) (tokBool pt) (rs.map decAuthn) with
     | none => (d, "unauthenticated")
     | some ids =>
@@ -213,9 +225,9 @@ def stepD (d : DState) (toks : List String) : DState × String :=
           match split '=' kv with
           | [k, x] => (k, x)
           | _ => (kv, [])
-        let p : Proxy := { verified := v, cluster := resolveAlias d.aliases (s2l cid),
-                           refs := if isRouter then some (verifiedRefs (grantEval d.grants) v (d.gws.filter (attached lbls)))
-                                   else none }
+        -- the optional Gateway exists in phase 1 iff it is deleted afterwards, and later iff it is created
+        let p1 := streamProxy d v (s2l cid) isRouter lbls (gwop == "del")
+        let p2 := streamProxy d v (s2l cid) isRouter lbls (gwop == "add")
         let n1 := decL names
         let n2 := decL names2
         -- what each phase asks for: request 1; request 2 (SotW: exactly the new list; delta: the names it subscribes);
@@ -225,11 +237,36 @@ def stepD (d : DState) (toks : List String) : DState × String :=
           (if tokBool push then
              [if names2 == "none" then n1 else if mode == "delta" then n1 ++ n2.filter (fun x => !n1.contains x) else n2]
            else [])
-        let run := phases.foldl (fun (acc : Cache × List String) ns =>
+        let run := (phases.zipIdx).foldl (fun (acc : Cache × List String) (nsi : List Str × Nat) =>
+          let ns := nsi.1
+          let p := if nsi.2 == 0 then p1 else p2
           match generate d.world acc.1 p ns (some ⟨true, []⟩) with
           | none => (acc.1, acc.2 ++ ["-"])
           | some o => (o.cache, acc.2 ++ [encList (sortOnly (o.res.map (fun e => showVal e.1 e.2)))])) (d.cache, [])
         ({ d with cache := run.1 }, s!"accepted {showId v} cfg={l2t cfg} " ++ " ".intercalate run.2)
+  | ["debug", _mode, vns, vsa, _vpkp, vlabels, vnames, ans, asa, atls, query] =>
+    let lbls := (decL vlabels).map fun kv =>
+      match split '=' kv with
+      | [k, x] => (k, x)
+      | _ => (kv, [])
+    let vid : Identity := ⟨"cluster.local".toList, s2l vns, s2l vsa⟩
+    let victim : Proxy := { verified := some vid, cluster := "Kubernetes".toList,
+                            refs := some (verifiedRefs (grantEval d.grants) (some vid) (d.gws.filter (attached lbls))) }
+    let q : DebugQuery := match query with
+      | "sds" => .sds | "full" => .full | "sgdump" => .sgdump | "syncz" => .syncz | "sgsyncz" => .sgsyncz
+      | "api" => .api | _ => .self
+    let asker : Option Identity := if tokBool atls then some ⟨"cluster.local".toList, s2l ans, s2l asa⟩ else none
+    let gen := generate d.world d.cache victim (decL vnames) (some ⟨true, []⟩)
+    let secrets := match gen with
+      | some o => o.res
+      | none => []
+    let d' := match gen with
+      | some o => { d with cache := o.cache }
+      | none => d
+    let oc := match debugOutcome asker q with
+      | .accepted => "accepted" | .denied => "denied" | .unauthenticated => "unauthenticated"
+    let shown := if debugOutcome asker q == .accepted then debugDump asker q (s2l vns) secrets else []
+    (d', s!"debug {oc} certs={encSet (shown.map String.ofList)} keys=-")
   -- stream refs
   | ["rgrant", src, frm, fns, to, name] =>
     let g : RefGrant :=
@@ -256,15 +293,26 @@ def stepD (d : DState) (toks : List String) : DState × String :=
     | [] => (d, "ok")
     | g :: rest => ({ d with gws := (({ g with servers := g.servers ++ [sv] } : GwConfig) :: rest).reverse }, "ok")
   | ["lsacc", loc, par, mode, sel, nsl] =>
-    let kvs := fun (t : String) => (decL t).map fun kv =>
-      match split '=' kv with
-      | [k, x] => (k, x)
-      | _ => (kv, [])
+    let kvs := fun (t : String) => (decL t).filterMap fun kv =>
+      match split ':' kv with
+      | [_, _, _] => none
+      | _ =>
+        match split '=' kv with
+        | [k, x] => some (k, x)
+        | k :: x :: more => some (k, x ++ more.flatMap (fun m => '=' :: m))
+        | _ => some (kv, [])
+    let exprs : List LExpr := (decL sel).filterMap fun kv =>
+      match split ':' kv with
+      | [k, op, vs] =>
+        let o : LOp := if op == "In".toList then .in_ else if op == "NotIn".toList then .notIn
+          else if op == "Exists".toList then .exists_ else if op == "DoesNotExist".toList then .doesNotExist else .bogus
+        some ⟨k, o, if vs.isEmpty then [] else split '|' vs⟩
+      | _ => none
     let m : ALMode := match mode with
       | "nil" => .absent | "nons" => .noNamespaces | "All" => .all | "Same" => .same | "None" => .none_
       | "Selector" => .selector | "Unset" => .unset | _ => .bogus
     (d, "acc=" ++ boolTok (nsAccepted (s2l loc) (s2l par) m (if sel == "nil" then none else some (kvs sel))
-      (if nsl == "nil" then none else some (kvs nsl))))
+      (if sel == "nil" then [] else exprs) (if nsl == "nil" then none else some (kvs nsl))))
   | ["merge", hasVid, td, ns, sa] =>
     let vid := if tokBool hasVid then some (⟨s2l td, s2l ns, s2l sa⟩ : Identity) else none
     let granted : Grants := grantEval d.grants
